@@ -62,6 +62,7 @@ func (w *WatcherHub) AddWatcher(ctx context.Context) (<-chan []*proto.Event, err
 func (w *WatcherHub) DeleteWatcher(sub chan []*proto.Event, lock bool) {
 	w.metricCli.EmitCounter("watcher_hub.delete_watcher", 1)
 	if lock {
+		verifPoint(w, "deleteWatcher.enter", 0)
 		w.Lock()
 	}
 	if _, ok := w.subs[sub]; ok {
@@ -85,6 +86,7 @@ func (w *WatcherHub) Stream(input chan []*proto.Event) {
 				// drop slow consumer
 				klog.InfoS("drop slow consumer", "chan", sub, "bufSize", watchBuffer)
 				w.metricCli.EmitCounter("drop.slow.watcher", 1)
+				verifPoint(w, "slowSubscriber", 0)
 				go w.DeleteWatcher(sub, true)
 			}
 		}
